@@ -162,8 +162,14 @@ def converted(sim, prog, st, v, ty):
     f = Q.find_from(prog, "Quantity", n)
     ls = sim.run(f, sim.identity_gargs(f), [v], st)
     if len(ls) != 1 or ls[0].kind != "return":
-        raise S.Unsupported("conversion of %s" % n)
+        raise ConversionBranches(n, f, [(l.kind, l.info.get("msg"), [p for p in l.pc][:3]) for l in ls])
     return sim.final_value(ls[0].state, ls[0].value), ls[0].state
+
+
+class ConversionBranches(Exception):
+    def __init__(self, n, fn, outcomes):
+        Exception.__init__(self, "conversion of %s" % n)
+        self.n, self.fn, self.outcomes = n, fn, outcomes
 
 
 def check_mixed(chk, prog, sim, imp, tr, fn):
@@ -193,14 +199,20 @@ def check_mixed(chk, prog, sim, imp, tr, fn):
     qfn = qop[0][2]
     st2 = S.State()
     av, bv = Sym("a", lt), Sym("b", rt)
-    r = converted(sim, prog, st2, av, lt)
-    if isinstance(r, tuple):
-        av, st2 = r[0], r[1].copy()
-        st2.frames = []
-    r = converted(sim, prog, st2, bv, rt)
-    if isinstance(r, tuple):
-        bv, st2 = r[0], r[1].copy()
-        st2.frames = []
+    try:
+        r = converted(sim, prog, st2, av, lt)
+        if isinstance(r, tuple):
+            av, st2 = r[0], r[1].copy()
+            st2.frames = []
+        r = converted(sim, prog, st2, bv, rt)
+        if isinstance(r, tuple):
+            bv, st2 = r[0], r[1].copy()
+            st2.frames = []
+    except ConversionBranches as e:
+        unsup = any(o[0] == "unsupported" for o in e.outcomes)
+        chk.violation("analysis-incomplete" if unsup else "C01.value", key + ":conversion", "Quantity::from(%s) is not a single total conversion (it %s): %s"
+                      % (e.n, "could not be modelled" if unsup else "branches or can panic depending on the value", e.outcomes[:3]), fn=e.fn["pretty"], file=loc(e.fn["span"]))
+        return
     ref = set()
     for l in sim.run(qfn, sim.identity_gargs(qfn), [av, bv], st2):
         ref.add(Q.leaf_outcome(sim, l))
